@@ -384,6 +384,7 @@ func (e *Engine) discharge(res *FuncResult, t *tr, body string, opt *Options) {
 	}
 	var wg sync.WaitGroup
 	var mu sync.Mutex
+	nOpen := 0
 	for k := range res.Obls {
 		wg.Add(1)
 		go func(k int) {
@@ -399,6 +400,16 @@ func (e *Engine) discharge(res *FuncResult, t *tr, body string, opt *Options) {
 			mu.Unlock()
 			if st == "unsat" || st == "error" {
 				if !opt.Thorough || st == "error" {
+					return
+				}
+			}
+			if st != "unsat" {
+				// a function with many open obligations is broken anyway: do not spend three solvers on each of them
+				mu.Lock()
+				nOpen++
+				over := nOpen > 12
+				mu.Unlock()
+				if over {
 					return
 				}
 			}
